@@ -63,3 +63,24 @@ impl Stats {
         s
     }
 }
+
+/// value token of the operation files: hex, or `Z<len>.<hex tag>` = the tag followed by filler bytes `z`
+pub fn tok_val(tok: &str) -> Vec<u8> {
+    if let Some(rest) = tok.strip_prefix('Z') {
+        let (n, tag) = rest.split_once('.').expect("Z token");
+        let mut v = unhex(tag);
+        v.resize(n.parse::<usize>().expect("Z len").max(v.len()), b'z');
+        v
+    } else {
+        unhex(tok)
+    }
+}
+
+/// rendering of a value in scan outputs: long values as `L<len>.<hex of the first 16 bytes>`
+pub fn render_val(v: &[u8]) -> String {
+    if v.len() <= 1200 {
+        hex(v)
+    } else {
+        format!("L{}.{}", v.len(), hex(&v[..16]))
+    }
+}
